@@ -51,7 +51,7 @@ def import_xdoctest():
 # trace injector: asynchronous faults at the k-th in-scope line event
 # ----------------------------------------------------------------------------
 
-PEER_SCOPE = {'op', 'emit', 'emitop', 'deco', 'say', 'aop', '_write', 'point', 'names', 'modglobal',
+PEER_SCOPE = {'op', 'emit', 'emitop', 'emitnoeol', 'abg', 'deco', 'say', 'aop', '_write', 'point', 'names', 'modglobal',
               '__aenter__', '__aexit__', '__anext__', '_raise_via'}
 
 
@@ -707,6 +707,10 @@ def run_op(op, idx):
         from xdoctest import utils
         mod = utils.import_module_from_path(abspath_of(op['module']), index=op.get('index', -1))
         return {'modname': mod.__name__}
+    if kind == 'setenv':
+        # the environment REQUIRES is evaluated against changes between two operations
+        seams.set_environment(op.get('environ', {}), op.get('argv', ['xdsim']))
+        return {'environ': sorted(op.get('environ', {})), 'argv': op.get('argv', ['xdsim'])}
     if kind == 'probe':
         from xdoctest import doctest_example
         src = ">>> sim_probe = 21 * 2\n>>> print(sim_probe)\n42\n>>> print('probe-ok')\nprobe-ok\n"
